@@ -1,11 +1,14 @@
 """C06 — batching wrapper: every caller gets exactly the results of its own pubs; every pub reaches the primitive once.
 Oracle + exploration + correspondence: vlib/batch.py; model: Batch/Monitor.v through the extracted binary."""
-from vlib import batch
+from vlib import batch, translate
 
 
 def run(ctx):
+    translate.check_link(ctx, "C06")  # regenerate Gallina from /repo's current mutex_primitives.py; link lemmas coq/link/C06Link.v
     batch.run_property(ctx, "C06")
 
 
 def replay(ctx, payload):
+    if translate.is_link_replay(payload) and not payload.get("failing_input"):
+        return translate.replay(ctx, payload, "C06")  # a replay file written for a broken translation tie
     batch.replay_property(ctx, "C06", payload)
